@@ -6,6 +6,13 @@
  *
  *   map <kind> <fails> <nops> <op>...  kind s = string keys (MAP(const char, *, int64_t)),
  *                                          i = int keys (MAP(int, , int64_t), key given as 4 bytes, little endian)
+ *                                          l = int64_t keys (MAP(int64_t, , int64_t), key given as 8 bytes): values
+ *                                              2^31 / 2^32 apart, beyond 32 bits
+ *                                          k = fixed-size keys by value (MAP(struct ks_k16, , int64_t), 16 bytes that
+ *                                              may hold NUL bytes anywhere)
+ *                                          p = the same 16 bytes behind a pointer (MAP(struct ks_k16, *, int64_t):
+ *                                              MAP_KEY_PTR without MAP_KEY_STR)
+ *                                          the model sees the key BYTES; short keys are zero-padded to the key size
  *                                      fails = "-" or a comma separated list of calloc indices (0 = the first calloc
  *                                          after MAP_INIT) that return NULL: allocation-failure injection
  *       ops: ins:<hexkey>:<value>  find:<hexkey>  rm:<hexkey>  itstart  itnext  itdel
@@ -37,7 +44,7 @@ static long		 ks_ncalloc;		/* callocs attempted since MAP_INIT */
 static long		 ks_fail_at[256];
 static size_t		 ks_nfail;
 static int		 ks_logging;
-static char		 ks_log[1 << 16];
+static char		 ks_log[1 << 20];	/* MAP_FREE of 8193 elements must fit */
 static size_t		 ks_loglen;
 
 static void
@@ -181,11 +188,12 @@ print_structure(void *mp)
 }
 
 /*
- * Keys are looked up and removed through pointers of every alignment (the
- * callers pass names that sit inside parsed lines): copy the key to an address
- * with (address % 8) == (i % 8).
+ * Keys are inserted, looked up and removed through pointers of every alignment
+ * (the callers pass names that sit inside parsed lines): copy the key to an
+ * address with (address % 8) == (i % 8); i = index of the operation.  Keys of
+ * up to 128 KiB fit.
  */
-static unsigned char unaligned_area[1 << 16];
+static unsigned char unaligned_area[(1 << 17) + 64] __attribute__((aligned(16)));
 static unsigned char *
 unaligned_copy(const unsigned char *k, size_t klen, size_t i)
 {
@@ -206,6 +214,38 @@ key_int(const unsigned char *k, size_t len)
 	return v;
 }
 
+static int64_t
+key_i64(const unsigned char *k, size_t len)
+{
+	int64_t v = 0;
+
+	memcpy(&v, k, len < sizeof(v) ? len : sizeof(v));
+	return v;
+}
+
+struct ks_k16 {
+	unsigned char	b[16];
+};
+
+static struct ks_k16
+key_k16(const unsigned char *k, size_t len)
+{
+	struct ks_k16 v;
+
+	memset(&v, 0, sizeof(v));
+	memcpy(&v, k, len < sizeof(v) ? len : sizeof(v));
+	return v;
+}
+
+/* pointer keys: the 16 bytes stay where the (unaligned) copy put them */
+static struct ks_k16 *
+key_p16(unsigned char *k, size_t len)
+{
+	if (len < sizeof(struct ks_k16))
+		memset(k + len, 0, sizeof(struct ks_k16) - len);
+	return (struct ks_k16 *)(void *)k;
+}
+
 #define MAP_SEQ(DECL, KEYOF, KEYHEX) do {					\
 	DECL m;									\
 	MAP_ITERATOR(m) it;							\
@@ -223,7 +263,8 @@ key_int(const unsigned char *k, size_t len)
 		if (i > 0) putchar(' ');					\
 		if (is(op, "ins")) {						\
 			const char *c2;						\
-			k = arghex(op, &klen); k[klen] = '\0';			\
+			kbase = arghex(op, &klen); kbase[klen] = '\0';		\
+			k = unaligned_copy(kbase, klen, i + 3);			\
 			c2 = strrchr(op, ':');					\
 			val = MAP_INSERT_VALUE(m, KEYOF(k, klen), (int64_t)strtoll(c2 + 1, NULL, 10)); \
 			if (val == NULL) printf("N");				\
@@ -271,6 +312,12 @@ key_int(const unsigned char *k, size_t len)
 #define KEYOF_INT(k, klen) key_int((k), (klen))
 #define KEYHEX_STR(key) puthex((const unsigned char *)(key), strlen(key))
 #define KEYHEX_INT(key) do { int _kv = (key); puthex((const unsigned char *)&_kv, sizeof(_kv)); } while (0)
+#define KEYOF_I64(k, klen) key_i64((k), (klen))
+#define KEYHEX_I64(key) do { int64_t _kv = (key); puthex((const unsigned char *)&_kv, sizeof(_kv)); } while (0)
+#define KEYOF_K16(k, klen) key_k16((k), (klen))
+#define KEYHEX_K16(key) do { struct ks_k16 _kv = (key); puthex(_kv.b, sizeof(_kv.b)); } while (0)
+#define KEYOF_P16(k, klen) key_p16((k), (klen))
+#define KEYHEX_P16(key) puthex((key)->b, sizeof((key)->b))
 
 /* element blocks still allocated after MAP_FREE: leaked by map.c; released here */
 static void
@@ -309,6 +356,12 @@ map_seq(char **toks, size_t ntoks)
 	}
 	if (toks[0][0] == 's')
 		MAP_SEQ(MAP(const char, *, int64_t), KEYOF_STR, KEYHEX_STR);
+	else if (toks[0][0] == 'l')
+		MAP_SEQ(MAP(int64_t, , int64_t), KEYOF_I64, KEYHEX_I64);
+	else if (toks[0][0] == 'k')
+		MAP_SEQ(MAP(struct ks_k16, , int64_t), KEYOF_K16, KEYHEX_K16);
+	else if (toks[0][0] == 'p')
+		MAP_SEQ(MAP(struct ks_k16, *, int64_t), KEYOF_P16, KEYHEX_P16);
 	else
 		MAP_SEQ(MAP(int, , int64_t), KEYOF_INT, KEYHEX_INT);
 }
